@@ -64,7 +64,7 @@ CHECKS = {
     "C15": ("exploration",
             "property-based testing of the frame decoder against an independent RFC 9113 reference decode, plus generated anomaly injection into live HTTP/2 conversations (own frame codec over TLS) judged by an expectation model written from RFC 9113",
             "Sub-check decoder: 200 000 generated byte strings and structured frames (every type, near-miss lengths, forbidden stream ids, reserved bit, padding longer than the payload, lengths above max_frame_size in {16384, 2^24-1}) through parser::frame_header / frame_body: never panics, Ok only for a complete rule-abiding frame consuming exactly 9 + declared length with typed fields equal to the reference decode, Err class among the classes of the rules broken. Sub-check conn: a valid conversation skeleton (preface, SETTINGS exchange, 0..3 open / half-closed / closed streams to an HTTP/1.1 or h2c backend) with one generated anomaly or flood (17 families: frames on idle / even / closed / half-closed streams, CONTINUATION misuse, PRIORITY, WINDOW_UPDATE 0 / overflow, nine SETTINGS defects, PING / RST_STREAM / GOAWAY misuse, oversized frames and header lists, malformed requests, streams above the advertised limit, frames after GOAWAY, truncated frames, invalid prefaces, floods of 8..2000 frames). Oracle: the reaction on the wire is in the RFC's admissible set for the state the anomaly met (ENHANCE_YOUR_CALM admitted from the smallest documented flood threshold on), the connection is closed within 3 s after an error GOAWAY, untouched streams complete exactly, the worker stays alive and serves a fresh HTTP/2 and HTTP/1.1 probe during and after, never more streams served than advertised.",
-            "ENHANCE_YOUR_CALM is only admitted, never required; the serializer round trip, HPACK budgets in-process and the coverage-guided fuzz targets of the design are not part of this check (see /verif/fuzz for the fuzz targets).",
+            "ENHANCE_YOUR_CALM is only admitted, never required; the serializer round trip and HPACK budgets in-process are not part of this check. Sub-check corpus replays the committed frame corpus (repository seeds) under generated mutations through the byte-level oracle shared with the cargo-fuzz target h2_frames, which the thorough tier runs as a bounded libFuzzer campaign.",
             "DESIGN.md §4 C15"),
     "C16": ("exploration",
             "stateful property-based testing (proptest) of the worker's SessionManager against a multiset model of live sessions and per-(cluster, IP) slots",
@@ -87,9 +87,9 @@ CHECKS = {
             "Expected objects come from the harness's own reading of doc/configure.md and the proto defaults; where they disagree (absent frontend position: proto says TREE, loader applies PRE) both are admitted and the case is counted. The master's load_static_config scatter to workers is not run.",
             "DESIGN.md §4 C20"),
     "C05": ("exploration",
-            "property-based round-trip testing (proptest): generated command histories -> ConfigState -> every save/replay encoding -> projection equality",
-            "Generated command histories (every mutating verb, valid/invalid arguments, colliding pools) build a reachable ConfigState which is replayed through the in-memory bootstrap requests, the protobuf InitialState blob, the \\n\\0-separated JSON state file (a fraction through real files), the JSON upgrade payload and a within-verb permutation; each replay must be accepted in full and reproduce the projection. Bounded exploration.",
-            "The fork/exec of the main-process upgrade is not run; UpgradeData is represented by the ConfigState JSON round trip. Projection ignores request_counts and normalises empty buckets.",
+            "property-based testing (proptest): generated command histories -> reachable ConfigState -> every save/replay encoding -> fresh instance, compared by exact projection; generated state files through the real main process's LoadState/SaveState; mutation-based replay of a fuzz corpus of state streams (libFuzzer campaign in the thorough tier)",
+            "Generated command histories (every mutating verb, valid/invalid arguments, colliding pools, empty REGEX/EQUALS path rules) build a reachable ConfigState which is replayed through the in-memory bootstrap requests, the protobuf InitialState blob, the \\n\\0-separated JSON state file (a fraction through real files), the JSON upgrade payload and a within-verb permutation; each replay must be accepted in full and reproduce the exact projection (an empty bucket left behind counts as a difference). Sub-check loadfile: the state (plus certificate records of 2..60 kB) is written by write_requests_to_file, loaded by a real CommandHub without workers over its unix socket (LoadState), saved again (SaveState) and replayed: both commands OK, same projection. Sub-check corpus: committed state-stream corpus under generated byte mutations through the save/load fixed-point oracle.",
+            "The fork/exec of upgrade_main is not run (UpgradeData.state is the JSON round trip checked here); state records above 150 kB are not generated (the loader reads through a 200 000-byte window).",
             "DESIGN.md §4 C05"),
     "C06": ("exploration",
             "property-based testing (proptest): generated pairs of reachable configurations, diff applied to the source, projection compared with the target",
